@@ -19,16 +19,16 @@ import bcommon as bc
 def corr_cases(strength):
     cases = [
         # (mesh, space kind, space kwargs, operator, wavenumber)
-        ("strip2", "DP0", {}, "slp", None),
+        ("islands3", "DP0", {}, "slp", None),
         ("strip2", "DP1", {"swapped_normals": [1]}, "slp", None),
-        ("strip2", "P1", {"include_boundary_dofs": True}, "lap_hyp", None),
-        ("strip3", "P1", {"include_boundary_dofs": True}, "helm_hyp", 1.5 + 0.5j),
+        ("islands3", "P1", {"include_boundary_dofs": True}, "lap_hyp", None),
+        ("islands3", "P1", {"include_boundary_dofs": True, "swapped_normals": [0]}, "helm_hyp", 1.5 + 0.5j),
         ("fan4", "P1", {}, "lap_hyp", None),
         ("tet", "P1", {"swapped_normals": [1]}, "modhelm_hyp", 0.75),
         ("tet", "P1seg", {"segments": [1], "include_boundary_dofs": True}, "helm_hyp", 2.0),
-        ("strip3", "RWG", {"include_boundary_dofs": True}, "efield", 1.25 + 0.25j),
+        ("islands3", "RWG", {"include_boundary_dofs": True}, "efield", 1.25 + 0.25j),
         ("tet", "RWG", {}, "efield", 0.5),
-        ("strip2", "RWG", {"include_boundary_dofs": True}, "mfield", 1.5),
+        ("islands3", "RWG", {"include_boundary_dofs": True}, "mfield", 1.5),
         ("tet", "RWGseg", {"segments": [1], "include_boundary_dofs": True}, "mfield", 1.0 + 0.5j),
     ]
     if strength == "thorough":
